@@ -55,6 +55,16 @@ impl BigInt {
     pub fn abs(&self) -> (r: BigInt) ensures r@ == (if self@ >= 0 { self@ } else { -self@ }) { unimplemented!() }
     #[verifier::external_body]
     pub fn from_u32(x: u32) -> (r: BigInt) ensures r@ == x as int { unimplemented!() }
+    /// num::One / num::Zero for BigInt
+    #[verifier::external_body]
+    pub fn one() -> (r: BigInt) ensures r@ == 1 { unimplemented!() }
+    #[verifier::external_body]
+    pub fn zero() -> (r: BigInt) ensures r@ == 0 { unimplemented!() }
+    #[verifier::external_body]
+    pub fn is_positive(&self) -> (r: bool) ensures r == (self@ > 0) { unimplemented!() }
+    /// BigInt::pow(&self, u32) (inherent; also num::traits::Pow<u32>)
+    #[verifier::external_body]
+    pub fn pow(&self, exponent: u32) -> (r: BigInt) ensures r@ == ipow(self@, exponent as nat) { unimplemented!() }
     /// num::ToPrimitive::to_i32
     #[verifier::external_body]
     pub fn to_i32(&self) -> (r: Option<i32>) ensures r == (if i32::MIN <= self@ <= i32::MAX { Some(self@ as i32) } else { None::<i32> }) { unimplemented!() }
@@ -77,6 +87,12 @@ impl BigRational {
         requires denom@ != 0
         ensures r@ == numer@ as real / denom@ as real
     { unimplemented!() }
+    #[verifier::external_body]
+    pub fn from_integer(n: BigInt) -> (r: BigRational) ensures r@ == n@ as real { unimplemented!() }
+    #[verifier::external_body]
+    pub fn is_positive(&self) -> (r: bool) ensures r == (self@ > 0real) { unimplemented!() }
+    #[verifier::external_body]
+    pub fn abs(&self) -> (r: BigRational) ensures r@ == (if self@ >= 0real { self@ } else { -self@ }) { unimplemented!() }
     #[verifier::external_body]
     pub fn is_integer(&self) -> (r: bool) ensures r == is_int(self@) { unimplemented!() }
     #[verifier::external_body]
